@@ -274,3 +274,73 @@ def h_zero(ctx, it):
         ctx.prove('size_mismatch_raises', False)
     except PyExc as e:
         ctx.prove('size_mismatch_raises', e.cls == 'TypeError')
+
+
+# ------------------------------------------------------------------------------------------------ slicing, zeroing of rows / columns, contraction
+def idx_arr(vals):
+    return CArr(np.array(list(vals), dtype=object), 'int')
+
+
+SLICES = {'rows_slice': ((slice(1, 3), slice(None)), lambda M: M[1:3, :]), 'cols_slice': ((slice(None), slice(0, 1)), lambda M: M[:, 0:1]),
+          'block': ((slice(0, 2), slice(1, 2)), lambda M: M[0:2, 1:2]), 'entry': ((2, 1), lambda M: M[2, 1]),
+          'row_vector': ((1, slice(None)), lambda M: M[1, :]), 'int_arrays': ((idx_arr([2, 0]), idx_arr([1, 1])), lambda M: np.array([M[2, 1], M[0, 1]], dtype=object))}
+
+for _nm in SLICES:
+    for _nd, _uk in ((1, 'real'), (2, 'real'), (2, 'complex')):
+        @harness(P, f'getitem[{_nm},dyads={_nd},{_uk}]', targets=[T('__getitem__'), T('__init__'), T('add_dyad')], timeout=20000)
+        def h_getitem(ctx, it, nm=_nm, nd=_nd, uk=_uk):
+            """D[subscript] equals dense(D)[subscript]: a carrier for 2-D slices, the entry / vector for scalar and integer-array subscripts; D unchanged and
+            the result shares no storage with it"""
+            ctx.safety_on = False
+            D, raw, _ = carrier(ctx, it, 'a', (3, 2), nd, uk, 'real')
+            sub, ref = SLICES[nm]
+            r = it.getitem(D, sub)
+            want = ref(dense_raw(raw, (3, 2)))
+            if is_carrier(r):
+                same(ctx, 'slice', dense_of(it, r), want)
+                ctx.prove('slice.no_shared_storage', all(not np.shares_memory(a.data, b.data) for a in it.getattr(r, 'u') + it.getattr(r, 'v')
+                                                         for b in it.getattr(D, 'u') + it.getattr(D, 'v')))
+            else:
+                same(ctx, 'slice', r, want)
+            unchanged(ctx, it, 'slice', D, raw)
+
+
+ZERO = {'rows': ((idx_arr([0, 2]), slice(None)), lambda M: [(i, j) for i in (0, 2) for j in range(2)]), 'row_range': ((slice(1, 3), slice(None)), lambda M: [(i, j) for i in (1, 2) for j in range(2)]),
+        'column': ((slice(None), 1), lambda M: [(i, 1) for i in range(3)])}
+for _nm in ZERO:
+    @harness(P, f'setitem_zero[{_nm}]', targets=[T('__setitem__'), T('copy'), T('contract'), T('contract_multi')], timeout=30000)
+    def h_setitem(ctx, it, nm=_nm):
+        """D[rows, :] = 0 / D[:, cols] = 0 zeroes exactly those rows / columns of dense(D); a copy taken before is not affected; contractions evaluated
+        AFTER the zeroing see the zeroed matrix (no stale cached data), also when a contraction was evaluated before; other values are refused"""
+        ctx.safety_on = False
+        D, raw, _ = carrier(ctx, it, 'a', (3, 2), 2)
+        C = it.call(it.getattr(D, 'copy'), [])
+        B = CArr(np.array([[ctx.sym(f'b{i}{j}', 'real') for j in range(2)] for i in range(3)], dtype=object), 'real')
+        from pvc import nplib
+        Bs = nplib._mk_sparse(B, 'coo')
+        before = it.call(it.getattr(D, 'contract'), [B])
+        before_multi = it.call(it.getattr(D, 'contract_multi'), [[Bs]])
+        M0 = dense_raw(raw, (3, 2))
+        sub, cells = ZERO[nm]
+        it.setitem(D, sub, 0)
+        want = M0.copy()
+        for (i, j) in cells(M0):
+            want[i, j] = 0
+        same(ctx, 'zeroed', dense_of(it, D), want)
+        same(ctx, 'copy_taken_before_is_unaffected', dense_of(it, C), M0)
+        quad = lambda M: functools.reduce(V.add, [V.mul(M[i, j], B.data[i, j]) for i in range(3) for j in range(2)], 0)
+        same(ctx, 'contract_before', before, quad(M0))
+        after = it.call(it.getattr(D, 'contract'), [B])
+        same(ctx, 'contract_after_sees_zeroed_matrix', after, quad(want))
+        if before_multi is not None:
+            same(ctx, 'contract_multi_before', before_multi.data[0], quad(M0))
+            after_multi = it.call(it.getattr(D, 'contract_multi'), [[Bs]])
+            same(ctx, 'contract_multi_after_sees_zeroed_matrix', after_multi.data[0], quad(want))
+        try:
+            it.setitem(D, sub, 1)
+            ctx.prove('nonzero_value_refused', False)
+        except PyExc as e:
+            ctx.prove('nonzero_value_refused', e.cls == 'ValueError')
+
+
+import functools   # noqa: E402
